@@ -136,8 +136,11 @@ func (sc *shapeChecker) checkResult(v Val, g *smt.Term, nested bool) {
 			}
 		}
 		if sc.opts.Locations && known && !nested {
-			// top-level traces are about the focus node
-			sc.checkLocation(e.V, ge, idx, "C14.location-eq-lexical.trace")
+			// top-level traces are about the focus node - except the trace of an embedded Rego constraint,
+			// which may name its own subject ($traceNode)
+			if comp, _ := getField(e.V, "component"); comp != ast.Value(ast.String("rego")) {
+				sc.checkLocation(e.V, ge, idx, "C14.location-eq-lexical.trace")
+			}
 		}
 		if tv, ok := getField(e.V, "traceValue"); ok {
 			if sub, ok := getField(tv, "subResult"); ok {
@@ -259,7 +262,7 @@ func (sc *shapeChecker) checkLocation(v Val, g *smt.Term, node int, label string
 	sc.fail(label, smt.And(g, bad), fmt.Sprintf("location of a result about n%d: %s", node+1, describe(loc)))
 }
 
-var placeholderRe = regexp.MustCompile(`\{\{\s*ex\.p(\d+)\s*}}`)
+var placeholderRe = regexp.MustCompile(`\{\{\s*ex\.p_?(\d+)\s*}}`)
 
 func scalarText(v ast.Value) (string, bool) {
 	switch x := v.(type) {
@@ -289,6 +292,10 @@ func (sc *shapeChecker) checkMessage(v Val, g *smt.Term, node int) {
 	}
 	phs := placeholderRe.FindAllStringSubmatch(val.Message, -1)
 	if len(phs) == 0 {
+		// no placeholder: the message as written (double quotes shown as single quotes)
+		if want := shownMessage(val.Message); want != string(ms) {
+			sc.fail("C13.message-substitution", g, fmt.Sprintf("message %q for n%d, written %q", string(ms), node+1, val.Message))
+		}
 		return
 	}
 	preds := placeholderPreds(phs)
@@ -551,7 +558,7 @@ func NativeShapeProblems(report string, p Program, g *Graph, m map[string]uint64
 		}
 		if opts.Message && isNode && !nested {
 			if v, ok := names[name]; ok && v.Message != "" {
-				if phs := placeholderRe.FindAllStringSubmatch(v.Message, -1); len(phs) > 0 {
+				if phs := placeholderRe.FindAllStringSubmatch(v.Message, -1); len(phs) >= 0 {
 					subs := map[int][]int{}
 					for _, pred := range placeholderPreds(phs) {
 						subs[pred] = g.Subsets[int(smt.Eval(g.Sel[node][pred], m, map[*smt.Term]uint64{}))%len(g.Subsets)]
@@ -575,6 +582,19 @@ func NativeShapeProblems(report string, p Program, g *Graph, m map[string]uint64
 				}
 				if _, ok := tm["resultPath"].(string); !ok {
 					problems = append(problems, "C12.result-shape.trace-entry")
+				}
+			}
+			// a top-level trace is about the focus node, unless embedded Rego named its own subject
+			if comp, _ := tm["component"].(string); opts.Locations && isNode && !nested && comp != "rego" {
+				k := int(smt.Eval(g.LexSel[node], m, map[*smt.Term]uint64{}))
+				loc, has := tm["location"].(map[string]any)
+				if (k == 0) != !has {
+					problems = append(problems, "C14.location-eq-lexical.trace")
+				} else if has {
+					want, _ := ast.JSON(expectedLocation(g.Lexical[k-1]))
+					if !sameLocation(loc, want.(map[string]any)) {
+						problems = append(problems, "C14.location-eq-lexical.trace")
+					}
 				}
 			}
 			if tv, ok := tm["traceValue"].(map[string]any); ok {
@@ -697,6 +717,16 @@ func ReplayShapeProblems(report string, validationNames []string, expectedLocati
 			if checkShape {
 				if c, _ := tm["component"].(string); c == "" {
 					problems = append(problems, "C12.result-shape.trace-entry")
+				}
+			}
+			if want, ok := expectedLocations[focus]; ok && expectedLocations != nil && !nested {
+				if comp, _ := tm["component"].(string); comp != "rego" {
+					loc, has := tm["location"].(map[string]any)
+					if (want == nil) != !has {
+						problems = append(problems, "C14.location-eq-lexical.trace")
+					} else if has && !sameLocation(loc, want.(map[string]any)) {
+						problems = append(problems, "C14.location-eq-lexical.trace")
+					}
 				}
 			}
 			if tv, ok := tm["traceValue"].(map[string]any); ok {
